@@ -12,6 +12,7 @@ import (
 	"os"
 	"os/exec"
 	"path/filepath"
+	"strings"
 	"sync"
 	"time"
 
@@ -33,10 +34,14 @@ func genInput(r *lib.Rand, k int) input {
 	ndest := 1 + r.Intn(3)
 	var buf bytes.Buffer
 	nrec := r.Intn(9)
-	big := r.Chance(4) // a few cases cross bufio.Reader's 4096-byte buffer boundary
+	big := r.Chance(5) // a few cases cross bufio.Reader's 4096-byte buffer boundary
 	if big {
 		ndest = 1
 		nrec = 1 + r.Intn(3)
+	}
+	bigAt := -1
+	if big {
+		bigAt = r.Intn(nrec) // one record is certainly at/over bufio.Reader's 4096-byte buffer
 	}
 	for i := 0; i < nrec; i++ {
 		var n int
@@ -54,6 +59,9 @@ func genInput(r *lib.Rand, k int) input {
 			n = 2 + r.Intn(3)
 		default:
 			n = 1 + r.Intn(40)
+		}
+		if i == bigAt {
+			n = []int{4094, 4095, 4096, 4097, 4098, 8192, 8193, 10000}[r.Intn(8)]
 		}
 		rec := r.Bytes(n)
 		if !r.Chance(15) { // mostly delimiter-free records; sometimes raw bytes
@@ -95,6 +103,9 @@ func fixedInputs() []input {
 		mk("fixed-empty", '\n', 1, ""),
 		mk("fixed-crlf", '\n', 1, "x\r\ny\r\n"),
 		mk("fixed-comma", ',', 3, "a,,b,c"),
+		mk("fixed-bufio-4095", '\n', 1, strings.Repeat("x", 4095)+"\nshort\n"),
+		mk("fixed-bufio-4096", '\n', 1, "first\n"+strings.Repeat("y", 4096)+"\nlast\n"),
+		mk("fixed-bufio-10000", '\n', 1, strings.Repeat("z", 10000)+"\ntail"),
 	}
 }
 
